@@ -782,3 +782,88 @@ def rule_revision_lookup_siblings(ctx):
                        "" if v["exists_ok"] else "the result of looking up %s is used without a preceding comparison with end()" % lab)
     ctx.floor("R-SIB", 10, n_handlers, "LocalRevision handlers with point lookups")
     ctx.floor("R-SIB", 40, n, "lookup obligations in LocalRevision")
+
+
+def rule_g3_scale_siblings(ctx):
+    """DataParser (gama-g3 input): every handler that appends an observation to the current cluster must append one
+    scale factor per dimension of that observation on every path to the push (`g3_obs()` compares the sum of the
+    dimensions with `scale.size()` and refuses the cluster otherwise), as its siblings do."""
+    fx = ctx.facts
+    cls = "GNU_gama::DataParser"
+    fx.cls(cls)
+    n = 0
+    for m in sorted(fx.methods_of(cls), key=lambda f: f.name):
+        if m.body is None:
+            continue
+        obs_push, scale_push = [], []
+        for c in m.calls():
+            if c.get("k") != "CXXMemberCallExpr" or strip_targs(c.get("callee") or "").rsplit("::", 1)[-1] != "push_back":
+                continue
+            obj = F.call_object(c)
+            txt = F.expr_text(obj) if obj is not None else ""
+            if txt.endswith("observation_list"):
+                obs_push.append(c)
+            elif txt.endswith("scale"):
+                scale_push.append(c)
+        if not obs_push:
+            continue
+        ctx.saw(m)
+        cfg = m.cfg
+        for op in obs_push:
+            # dimension of the pushed observation: the class of the pointer argument
+            args = F.call_args(op)
+            t = (args[0].get("t") or "") if args else ""
+            cname = strip_targs(t.replace("*", "").replace("const ", "").strip())
+            dim = None
+            for f in fx.methods_of(cname) if cname in fx.classes else []:
+                if f.name == "dimension" and f.body is not None:
+                    rets = [x for x in f.walk() if x.get("k") == "ReturnStmt" and x.get("c")]
+                    if len(rets) == 1 and rets[0]["c"][0].get("k") == "IntegerLiteral":
+                        dim = int(rets[0]["c"][0]["v"])
+            if dim is None:
+                raise AnalysisBroken("R-SIB: dimension of %s pushed in %s is not a literal" % (cname or t, m.short))
+            # minimum and maximum number of scale pushes on a path through the handler that appends the observation:
+            # (entry -> the push) + (the push -> exit)
+            pb = cfg.block_of(op)
+            if pb is None:
+                continue
+
+            def pos(snode):
+                return cfg.block_of(snode) or (None, -1)
+            before_in = {bk: sum(1 for sp in scale_push if pos(sp)[0] == bk and (bk != pb[0] or pos(sp)[1] < pb[1]))
+                         for bk in cfg.blocks}
+            after_in = {bk: sum(1 for sp in scale_push if pos(sp)[0] == bk and (bk != pb[0] or pos(sp)[1] > pb[1]))
+                        for bk in cfg.blocks}
+
+            def span(start, weights, stop=None, edges=None):
+                lo, hi = {start: 0}, {start: 0}
+                for _ in range(4 * len(cfg.blocks) + 4):
+                    changed = False
+                    for bk in list(lo):
+                        if bk == stop:
+                            continue
+                        ol, oh = lo[bk] + weights[bk], min(hi[bk] + weights[bk], 99)
+                        for s2 in edges.get(bk, []):
+                            nl, nh = min(lo.get(s2, 10 ** 6), ol), max(hi.get(s2, -1), oh)
+                            if nl != lo.get(s2) or nh != hi.get(s2):
+                                lo[s2], hi[s2] = nl, nh
+                                changed = True
+                    if not changed:
+                        break
+                return lo, hi
+            lo1, hi1 = span(cfg.entry, before_in, stop=pb[0], edges=cfg.succ)
+            if pb[0] not in lo1:
+                continue
+            w2 = dict(after_in)
+            lo2, hi2 = span(pb[0], w2, stop=cfg.exit, edges=cfg.succ)
+            if cfg.exit not in lo2:
+                continue
+            mn = lo1[pb[0]] + before_in[pb[0]] + lo2[cfg.exit]
+            mx = hi1[pb[0]] + before_in[pb[0]] + hi2[cfg.exit]
+            n += 1
+            ok = (mn == dim and mx == dim)
+            ctx.report("R-SIB", "DataParser::%s:scale-per-dimension" % m.name, ok, m.where(op), m.short,
+                       "" if ok else "%s appends a %s (dimension %d) to the cluster but %s scale factor(s) on the way: g3_obs() "
+                       "then finds dimension sum != scale.size() and refuses every document that contains this element"
+                       % (m.name, short(cname), dim, ("%d" % mn) if mn == mx else "%d..%d" % (mn, mx)))
+    ctx.floor("R-SIB", 6, n, "g3 observation handlers that append to the cluster")
